@@ -261,11 +261,21 @@ def main(outdir=None, tables_text=None):
         files.update(translate_tables.generate(tt, ek))
     except ImportError:
         pass
+    wire_meta = None
+    try:
+        import translate_wire
+        wf, wire_meta = translate_wire.generate()
+        files.update(wf)
+    except TranslateError as e:
+        # only C20 depends on this file: make its build fail with the reason, leave the others alone
+        msg = str(e).replace('"', "'")
+        files["WireFields.v"] = f'(* GENERATED: the wire translator failed *)\nFrom Coq Require Import String.\nDefinition WIRE_TRANSLATION_ERROR : False := "{msg}"%string.\n'
+        wire_meta = {"error": str(e)}
     for name, text in files.items():
         if write_if_changed(os.path.join(outdir, name), text):
             changed.append(name)
     meta = {"token_types": len(tt["variants"]), "keywords": len(tt["kws"]), "macro_keywords": len(tt["mkws"]),
-            "error_kinds": len(ek["variants"]), "changed": changed, "files": sorted(files)}
+            "error_kinds": len(ek["variants"]), "changed": changed, "files": sorted(files), "wire": wire_meta}
     with open(os.path.join(outdir, "meta.json"), "w") as f:
         json.dump(meta, f, indent=1)
     return meta
